@@ -113,6 +113,11 @@ BodyFamily ==
   \cup {Msg(11, NoH, [Pat(30, 5) EXCEPT ![16] = 33, ![13] = v], <<>>) : v \in Sweep8}            \* reserved octet
   \cup {Msg(13, NoH, [Pat(14, 5) EXCEPT ![13] = v], <<>>) : v \in Sweep8}            \* reserved | actionField
   \cup {Msg(13, NoH, [Pat(14, 5) EXCEPT ![11] = v, ![12] = 255 - v, ![14] = v], <<>>) : v \in Sweep8}
+\* the top bit of every body octet, one octet at a time, at 128 and 255 (a field assembled from signed parts, or widened with sign
+\* extension, decodes such octets into something the encoder does not give back; e.g. a secondsField after January 2038). The
+\* octets holding closed enumerations (clockAccuracy, timeSource, actionField) are swept separately above.
+SignFamily ==
+  UNION {{Msg(t, NoH, [Body0(t) EXCEPT ![i] = v], <<>>) : i \in {j \in 1..BodyLen(t) : ~(t = 11 /\ j \in {16, 30}) /\ ~(t = 13 /\ j = 13)}, v \in {128, 255}} : t \in Types}
 \* TLV layouts on Announce, Sync and Signaling
 Suffixes ==
   {<<>>, Tlv(8, Pat(8, 1)), Tlv(16384, <<>>), Tlv(3, Pat(6, 2)) \o Tlv(16384, Pat(2, 3)), Tlv(16384, Pat(2, 3)) \o Tlv(9, <<>>),
@@ -133,7 +138,7 @@ LenFamily ==
     {SubSeq(Msg(t, NoH, Body0(t), <<>>), 1, k) : k \in {0, 1, 2, 33, 34, 34 + BodyLen(t) - 1}}   \* truncated buffers
     : t \in Types}
 
-Vectors == HeaderFamily \cup TypeFamily \cup BodyFamily \cup TlvFamily \cup LenFamily
+Vectors == HeaderFamily \cup TypeFamily \cup BodyFamily \cup SignFamily \cup TlvFamily \cup LenFamily
 
 VARIABLES vec, done
 vars == <<vec, done>>
